@@ -427,8 +427,123 @@ pub fn run_c06(ctx: &Ctx) {
             out::outcome(idx, &class, if sig.is_empty() { Verdict::Held } else { Verdict::Violated }, &sig, &d);
         }
     }
+    // ---- a call past the budget is rejected AT THE CALL whatever the caller is doing - also when it is made
+    // by a destructor that runs while the calling thread unwinds from an unrelated, contained panic
+    let mut unwinding_calls = 0u64;
+    let mut special = trials.len() as u64 + 2;
+    for &arm in &ARMS {
+        for n in [0usize, 1, 2] {
+            let idx = special;
+            special += 1;
+            if !ctx.mine(idx) {
+                continue;
+            }
+            let class = format!("{:?}/N={}/over-budget-call-from-a-destructor-during-unwinding", arm, n);
+            out::intent(idx, &class, &J::new().s("crash_sig", "call-during-unwinding"));
+            N_STATIC.store(n, Ordering::SeqCst);
+            let mut inj = ip::lib(InjectorPP::new);
+            ip::lib(|| install(&mut inj, arm, make(arm)));
+            let mut sig = String::new();
+            for _ in 0..n {
+                if call(arm, true) != Ok(faked_value(arm)) {
+                    sig = "call-within-the-budget-not-admitted".into();
+                }
+            }
+            struct CallsInDrop(Arm, std::sync::mpsc::Sender<(bool, Result<i64, String>)>, bool);
+            impl Drop for CallsInDrop {
+                fn drop(&mut self) {
+                    // std::thread::panicking() is true here
+                    let _ = self.1.send((true, call(self.0, true)));
+                    if self.2 {
+                        let _ = self.1.send((false, call(self.0, false)));
+                    }
+                }
+            }
+            let (tx, rx) = std::sync::mpsc::channel();
+            let hw = has_when(arm);
+            let _ = std::panic::catch_unwind(move || {
+                let _g = CallsInDrop(arm, tx, hw);
+                panic!("USER: unrelated panic, contained by the test body");
+            });
+            let _ = panicobs::take();
+            for (matching, r) in rx.try_iter() {
+                unwinding_calls += 1;
+                if r.is_ok() && sig.is_empty() {
+                    sig = if matching { "call-past-the-budget-admitted-while-the-caller-was-unwinding".into() } else { "non-matching-call-admitted-while-the-caller-was-unwinding".into() };
+                }
+            }
+            let (dres, _) = panicobs::observe(|| ip::lib(|| drop(inj)));
+            // N + 1 matching calls were made: the exit must say so
+            if sig.is_empty() && dres.is_ok() {
+                sig = "no-exit-panic-although-count-differs".into();
+            }
+            if call(arm, true) != Ok(orig_value(arm)) {
+                out::outcome(idx, &class, Verdict::Violated, "original-not-back", &J::new());
+                std::process::exit(75);
+            }
+            out::outcome(idx, &class, if sig.is_empty() { Verdict::Held } else { Verdict::Violated }, &sig, &J::new().n("N", n).s("exit", &dres.err().unwrap_or_else(|| "no-panic".into())));
+        }
+    }
+    // ---- the verdict of a lifetime is computed before the next lifetime of the same call site can start:
+    // thread B waits in InjectorPP::new() while A's scope ends; A's scope exit is stretched by delays in its
+    // deallocations (harness allocator), B installs through the same fake! line as soon as it is admitted and
+    // makes no call until A is completely gone. A made exactly N calls: its exit must not panic.
+    let mut stretched_exits = 0u64;
+    for &arm in &[Arm::Ret, Arm::UnitAssign, Arm::WhenRet, Arm::UnitTimes] {
+        for rep in 0..3u64 {
+            let idx = special;
+            special += 1;
+            if !ctx.mine(idx) {
+                continue;
+            }
+            let class = format!("{:?}/N=1/next-lifetime-of-the-site-queued-while-this-one-ends", arm);
+            out::intent(idx, &class, &J::new().n("rep", rep).s("crash_sig", "queued-next-lifetime"));
+            N_STATIC.store(1, Ordering::SeqCst);
+            let mut inj = ip::lib(InjectorPP::new);
+            ip::lib(|| install(&mut inj, arm, make(arm)));
+            let first = call(arm, true);
+            let (a_gone_tx, a_gone_rx) = std::sync::mpsc::channel::<()>();
+            let b_started = Arc::new(AtomicBool::new(false));
+            let b_started2 = b_started.clone();
+            let hb = std::thread::spawn(move || {
+                b_started2.store(true, Ordering::SeqCst);
+                let mut calls = Vec::new();
+                let (r, _) = panicobs::observe(|| {
+                    let mut inj = InjectorPP::new(); // queued behind A
+                    install(&mut inj, arm, make(arm));
+                    let _ = a_gone_rx.recv_timeout(std::time::Duration::from_secs(20));
+                    calls.push(call(arm, true));
+                    drop(inj);
+                });
+                (calls, r)
+            });
+            while !b_started.load(Ordering::SeqCst) {
+                std::hint::spin_loop();
+            }
+            std::thread::sleep(std::time::Duration::from_millis(20)); // B is now blocked in new()
+            crate::delayalloc::arm(8, 15_000);
+            let (dres, _) = panicobs::observe(|| ip::lib(|| drop(inj)));
+            crate::delayalloc::disarm();
+            stretched_exits += 1;
+            let _ = a_gone_tx.send(());
+            let (b_calls, b_exit) = hb.join().unwrap_or((Vec::new(), Err("B panicked outside the observer".into())));
+            let mut sig = String::new();
+            if first != Ok(faked_value(arm)) {
+                sig = "call-within-the-budget-not-admitted".into();
+            } else if dres.is_err() {
+                sig = "exit-verdict-computed-after-the-next-lifetime-of-the-site-started".into();
+            } else if b_calls.first() != Some(&Ok(faked_value(arm))) || b_exit.is_err() {
+                sig = "next-lifetime-of-the-site-disturbed-by-the-previous-one".into();
+            }
+            if call(arm, true) != Ok(orig_value(arm)) {
+                out::outcome(idx, &class, Verdict::Violated, "original-not-back", &J::new());
+                std::process::exit(75);
+            }
+            out::outcome(idx, &class, if sig.is_empty() { Verdict::Held } else { Verdict::Violated }, &sig, &J::new().s("exit_of_the_ending_lifetime", &dres.err().unwrap_or_else(|| "no-panic".into())).s("next_lifetime", &format!("{:?} / {:?}", b_calls, b_exit)));
+        }
+    }
     let bo = by_outcome.iter().fold(J::new(), |j, (k, v)| j.n(k, *v));
-    out::summary(&J::new().n("calls_racing_with_an_installation", race_hits).n("trials_total", trials.len()).n("calls_made", total_calls).n("multithread_trials_with_overlapping_call_windows", overlap_trials).o("by_outcome", bo));
+    out::summary(&J::new().n("calls_made_by_destructors_during_unwinding", unwinding_calls).n("scope_exits_stretched_with_the_next_lifetime_queued", stretched_exits).n("deallocations_delayed", crate::delayalloc::DELAYED_FREES.load(Ordering::SeqCst)).n("calls_racing_with_an_installation", race_hits).n("trials_total", trials.len()).n("calls_made", total_calls).n("multithread_trials_with_overlapping_call_windows", overlap_trials).o("by_outcome", bo));
 }
 
 // ---------------------------------------------------------------------------------- C07
